@@ -17,6 +17,7 @@ from . import common
 
 ID = 'C10'
 LEVEL = 'fault_enumeration'
+ENV_OPT_OUT = ('empty_poll',)      # the monitors compared here are not at the same update count (reset / rebuilt stand-alone monitors)
 RUNS = {'quick': 16000, 'thorough': 100000}
 SIM_TIME_UNIT = 'updates'
 RULE = ('seeded generation of (online specification incl. sub-specs and pastified ones, pre-history of 0..10 updates with clock '
